@@ -356,7 +356,11 @@ func (h *harness) opPat(s, t string) string {
 	return out
 }
 
-func (h *harness) opCmp(a, b cpe.WFN) (string, cpe.Relations) {
+func (h *harness) opCmp(a, b cpe.WFN) (string, cpe.Relations) { return h.opCmp2(a, b, true) }
+
+// opCmp2: derived comparisons (case-mapped, swapped, self) are protocol lines
+// too, but are not counted as distinct non-trivial cases.
+func (h *harness) opCmp2(a, b cpe.WFN, primary bool) (string, cpe.Relations) {
 	var rs cpe.Relations
 	out := hx.Guard(func() string {
 		rs = cpe.Compare(a, b)
@@ -368,7 +372,7 @@ func (h *harness) opCmp(a, b cpe.WFN) (string, cpe.Relations) {
 			setset = true
 		}
 	}
-	h.r.Op("cmp "+encWFN(a)+" "+encWFN(b), out, setset)
+	h.r.Op("cmp "+encWFN(a)+" "+encWFN(b), out, setset && primary)
 	if out == "panic" {
 		h.r.Fail("", fmt.Sprintf("Compare panics on %q %q", a.BindFS(), b.BindFS()))
 	}
@@ -384,6 +388,10 @@ func (h *harness) opVuln(name string, record cpe.WFN) string {
 	}
 	return out
 }
+
+// begin marks the start of one generated case: the lines up to the next
+// marker are what a failure report carries as its replayable scenario.
+func (h *harness) begin() { h.r.Op("reset", "ok", false) }
 
 // ---- direct checks of the statement ----
 
@@ -627,22 +635,22 @@ func (h *harness) checkCompare(a, b cpe.WFN) {
 	}
 	// identical names are equal
 	if wildFree(a) {
-		if _, aa := h.opCmp(a, a); !aa.IsEqual() {
+		if _, aa := h.opCmp2(a, a, false); !aa.IsEqual() {
 			h.r.Fail("", fmt.Sprintf("identical names are not equal: %q (op: cmp %s %s)", a.BindFS(), encWFN(a), encWFN(a)))
 		}
 	}
 	// comparison is case-insensitive
 	for _, up := range []bool{true, false} {
-		if _, r := h.opCmp(mapCase(a, up), b); r != ab {
+		if _, r := h.opCmp2(mapCase(a, up), b, false); r != ab {
 			h.r.Fail("", fmt.Sprintf("case of the source changes the verdict: %s", desc()))
 		}
-		if _, r := h.opCmp(a, mapCase(b, up)); r != ab {
+		if _, r := h.opCmp2(a, mapCase(b, up), false); r != ab {
 			h.r.Fail("", fmt.Sprintf("case of the target changes the verdict: %s", desc()))
 		}
 	}
 	// mirror image
 	if wildFree(a) && wildFree(b) {
-		_, ba := h.opCmp(b, a)
+		_, ba := h.opCmp2(b, a, false)
 		for i := range ab {
 			if ba[i] != mirror(ab[i]) {
 				h.r.Fail("", fmt.Sprintf("attribute %d: %s one way, %s the other; %s", i, relLetter(ab[i]), relLetter(ba[i]), desc()))
@@ -917,6 +925,7 @@ func Run(cfg hx.Config) error {
 	}
 	// names
 	for i, n := 0, cfg.N(2500, 150000); i < n && !r.Stop(); i++ {
+		h.begin()
 		w := g.wfn()
 		if i%2 == 0 {
 			w = g.cleanWFN()
@@ -948,6 +957,7 @@ func Run(cfg hx.Config) error {
 			s = g.mutate(g.uri())
 			r.Count("strings:uri-mutated")
 		}
+		h.begin()
 		out0, w, ok := h.opUnbind("unbind", s)
 		h.checkAcceptFS(s, w, ok)
 		if strings.HasPrefix(s, "cpe:/") {
@@ -996,6 +1006,7 @@ func Run(cfg hx.Config) error {
 	}
 	// pairs
 	for i, n := 0, cfg.N(2500, 150000); i < n && !r.Stop(); i++ {
+		h.begin()
 		a, b := g.pair()
 		h.checkCompare(a, b)
 		if i%3 == 0 {
@@ -1022,6 +1033,7 @@ func Run(cfg hx.Config) error {
 		case 3:
 			v.Attr[3].V = flipCase(g.r, v.Attr[3].V)
 		}
+		h.begin()
 		h.checkGate(v, rec)
 	}
 	return nil
@@ -1076,6 +1088,7 @@ func (h *harness) exhaustiveKinds() {
 	for pos := 1; pos < cpe.NumAttr; pos++ {
 		for _, s := range vals {
 			for _, t := range vals {
+				h.begin()
 				a := mkName(nil)
 				b := mkName(nil)
 				a.Attr[pos], b.Attr[pos] = s, t
